@@ -38,6 +38,25 @@ def gen(tier, rng):
                 sc = h[:pos]
                 for nsends in (1, 2):
                     cases.append(c20.pool_case(client, 300, 1, False, nsends, "a@b.c", to, b"hello\r\n", [sc, h, h]))
+    # random histories of the pooled transport: 2-4 connections, each good for 1-3 transactions (with the NOOP probe in
+    # between), cut short at a random point and / or with one faulty reply; 2-5 sends over a pool of 1 or 2
+    for _ in range({"quick": 150, "search": 600, "thorough": 3000}[tier]):
+        nr = rng.choice([1, 1, 2])
+        h = c20.happy(nr)
+        to = ["x@y.z", "p@q.r"][:nr]
+
+        def conn_script():
+            sc = list(h)
+            for _ in range(rng.randint(0, 2)):
+                sc += [smtpgen.step(b"250 ok\r\n")] + h[2:]
+            if rng.random() < 0.5:
+                sc = sc[:rng.randint(0, len(sc))]
+            if sc and rng.random() < 0.35:
+                i = rng.randrange(len(sc))
+                sc[i] = smtpgen.fault(rng, rng.choice(["mail", "rcpt", "data", "eod", "noop"]))
+            return sc
+        scripts = [conn_script() for _ in range(rng.randint(2, 4))]
+        cases.append(c20.pool_case(rng.choice("sa"), 300, rng.choice([1, 2]), False, rng.randint(2, 5), "a@b.c", to, b"hello\r\n", scripts))
     # `test_connection()` of both transports: fails when the connection cannot be set up, `true` exactly when the NOOP is
     # answered positively
     greets = [b"220 srv ESMTP\r\n", b"220-srv\r\n220 ready\r\n", b"554 no service\r\n", b"421 busy\r\n"]
